@@ -1,6 +1,6 @@
 ---------------------------- MODULE VarObjective ----------------------------
 (***************************************************************************)
-(* Variational objectives (property C15), four parts selected by Part.     *)
+(* Variational objectives (property C15), five parts selected by Part.     *)
 (*                                                                         *)
 (*  "assembly" objective = (1/B) sum_{i in minibatch} ell_i                *)
 (*                         - (beta/N) KL + (1/N) sum_k log prior_k         *)
@@ -74,10 +74,37 @@
 (*                                                                         *)
 (*  Instances carry a per-point noise vector nv (homoskedastic: constant); *)
 (*  a non-constant nv is a FixedNoiseGaussianLikelihood.                   *)
+(*                                                                         *)
+(*  "tree"     the MODULE TREE below the objective (objective -> likelihood *)
+(*             L, model M -> sub-modules A, B; A -> C) and WHERE the added *)
+(*             loss terms and the priors are registered in it: a layout is *)
+(*             a partial map (module object, local name) -> term / prior   *)
+(*             OBJECT, with 0..3 registrations, equal and different local  *)
+(*             names in different sub-modules, one object under several    *)
+(*             (module, name) slots, registered-but-never-updated terms     *)
+(*             (None), and tree shapes in which one sub-module object is   *)
+(*             reachable along two paths ("alias": twice below the same    *)
+(*             parent, "diamond": below two parents).  Definition: every   *)
+(*             added loss term OBJECT reachable from the model is          *)
+(*             subtracted once; every prior REGISTRATION (module object,   *)
+(*             local name) reachable from the objective adds (1/N) of the  *)
+(*             log density of its own parameter once (one prior object on  *)
+(*             two parameters counts for both).  Code side: the generators *)
+(*             _extract_named_added_loss_terms (memo of term objects) and  *)
+(*             _extract_named_priors (memo of (module, name)) over          *)
+(*             torch's named_children (each child object once per parent). *)
+(*             Walkers with other memo keys (local name, prior object, no  *)
+(*             memo) are evaluated next to the code's: the lattice must    *)
+(*             separate each of them from the definition (out.alt).        *)
+(*             "comp" cells of part "lattice": the same dimension on real  *)
+(*             components (VariationalLatentVariable blocks, which all     *)
+(*             register "x_kl"; additive kernels whose parts carry priors  *)
+(*             under equal local names).                                   *)
 (***************************************************************************)
 EXTENDS LinAlg, TLC
 
-CONSTANTS Part, Repairs, Instances, MaxSteps
+CONSTANTS Part, Repairs, Instances, MaxSteps,
+          TreeLevel   \* "full": every layout of <= 3 registrations in every shape; "quick": layouts of 3 registrations only in the plain shape without None
 
 VARIABLES c,      \* configuration / instance / cell
           out,    \* what must be observed (+ what the transcribed code computes)
@@ -179,6 +206,140 @@ AssemblyOut(cf) ==
 AssemblyOK       == Part = "assembly" => out.agree
 PositiveBetaOK   == Part = "assembly" => (~IsZero(c.beta) => out.agree)
 PredictionsSharp == (Part = "assembly" /\ Repairs = {}) => (out.agree <=> ~IsZero(c.beta))
+
+\* ============================ part "tree" ======================================================
+\* module OBJECTS: "O" the objective, "L" its likelihood, "M" the ApproximateGP, "A" and "B" sub-modules of M, "C" a sub-module of A.
+\* A registration slot is (module object, local name); an added-loss layout maps <= 3 of the 8 slots of M, A, B, C to a term object
+\* 1..3 or to 0 (register_added_loss_term without update_added_loss_term: None); a prior layout maps <= 3 of the 10 slots of L, M, A, B,
+\* C to a prior object 1..3.  Objects are labelled in order of first use, so <<1, 1>> is "one object in two slots" and <<1, 2>> "two
+\* objects"; equal local names in different modules and different local names in one module are both in the lattice.
+TObjs  == {"elbo", "pll", "gamma"}
+TMods  == <<"L", "M", "A", "B", "C">>
+TNames == <<"x", "y">>
+TSlot(k) == [mod |-> TMods[(k + 1) \div 2], name |-> TNames[2 - (k % 2)]]          \* k in 1..10
+TShapes == {"plain", "alias", "diamond"}
+\* module._modules in registration order: <<attribute name, child object>>.  "alias": A is registered twice below M; "diamond": C
+\* is a child of A and of B (one kernel / latent block object used in two places)
+Kids(shape, m) ==
+  CASE m = "O" -> << <<"likelihood", "L">>, <<"model", "M">> >>
+    [] m = "M" -> << <<"a", "A">>, <<"b", "B">> >> \o (IF shape = "alias" THEN << <<"a2", "A">> >> ELSE <<>>)
+    [] m = "A" -> << <<"c", "C">> >>
+    [] m = "B" -> IF shape = "diamond" THEN << <<"c", "C">> >> ELSE <<>>
+    [] OTHER -> <<>>
+RECURSIVE ReachFrom(_, _)
+ReachFrom(shape, m) == {m} \cup UNION {ReachFrom(shape, Kids(shape, m)[i][2]) : i \in 1..Len(Kids(shape, m))}
+
+MaxOfSet(S) == CHOOSE x \in S : \A y \in S : y <= x
+RECURSIVE SortedSeq(_)
+SortedSeq(S) == IF S = {} THEN <<>> ELSE LET m == CHOOSE x \in S : \A y \in S : x <= y IN <<m>> \o SortedSeq(S \ {m})
+FirstUse(f, n) == \A k \in 1..n : f[k] <= 1 + MaxOfSet({0} \cup {f[j] : j \in 1..(k - 1)})
+LayoutsOver(slots, lo) ==
+  UNION {IF S = {} THEN {<<>>}
+         ELSE LET sq == SortedSeq(S)  n == Len(sq)
+              IN {[k \in 1..n |-> [mod |-> TSlot(sq[k]).mod, name |-> TSlot(sq[k]).name, id |-> f[k]]] : f \in {g \in [1..n -> lo..3] : FirstUse(g, n)}}
+         : S \in {T \in SUBSET slots : Cardinality(T) <= 3}}
+NoneFree(lay) == \A k \in 1..Len(lay) : lay[k].id # 0
+OnMods(lay) == {lay[k].mod : k \in 1..Len(lay)}
+TreeCfgs ==
+  LET added == [obj : TObjs, shape : TShapes, fam : {"added"}, al : LayoutsOver(3..10, 0), pl : {<<>>}]
+      prior == [obj : TObjs, shape : TShapes, fam : {"prior"}, al : {<<>>}, pl : LayoutsOver(1..10, 1)]
+      both  == [obj : TObjs, shape : {"plain"}, fam : {"both"}, al : LayoutsOver({5, 7}, 1) \ {<<>>}, pl : LayoutsOver({1, 5, 7}, 1) \ {<<>>}]
+  IN {cf \in added \cup prior \cup both :
+        LET lay == cf.al \o cf.pl
+        IN /\ (cf.shape = "alias" => OnMods(lay) \cap {"A", "C"} # {})           \* a shape is listed where it can matter
+           /\ (cf.shape = "diamond" => "C" \in OnMods(lay))
+           /\ (TreeLevel = "full" \/ Len(lay) <= 2 \/ cf.fam = "both" \/ (cf.shape = "plain" /\ NoneFree(lay)))}
+\* the rest of the call is one fixed cell of the assembly lattice: minibatch of 2 out of 10 data points, beta = 1/2
+TreeBase(cf) == [obj |-> cf.obj, B |-> 2, Nk |-> "10", beta |-> <<1, 2>>, combine |-> TRUE, np |-> 0, psite |-> "model", nl |-> 0, rank |-> 1, kw |-> {}]
+
+\* stubs: loss() of term object j; prior object p has log density PriorV(p) * value, element by element; every element of a parameter
+\* of module m has the value ParVal(m); the parameter behind local name "x" has one element, behind "y" two
+TermV(j)  == R(7 * IPow(10, j + 2))
+PriorV(p) == R(IPow(10, p + 1))
+ParVal(m) == CASE m = "L" -> 1 [] m = "M" -> 3 [] m = "A" -> 5 [] m = "B" -> 7 [] OTHER -> 11
+ParElems(name) == IF name = "x" THEN 1 ELSE 2
+PriorElemsT(r) == [e \in 1..ParElems(r.name) |-> RMul(R(ParVal(r.mod)), PriorV(r.id))]          \* prior.log_prob(closure(module))
+RECURSIVE OnlyMods(_, _)
+OnlyMods(lay, mods) == IF lay = <<>> THEN <<>> ELSE (IF Head(lay).mod \in mods THEN <<Head(lay)>> ELSE <<>>) \o OnlyMods(Tail(lay), mods)
+
+\* ---- definition: a SET of term objects, a SET of (module object, local name) registrations
+DefAddedT(cf) ==
+  LET reg == OnlyMods(cf.al, ReachFrom(cf.shape, "M"))
+      ids == SortedSeq({reg[k].id : k \in 1..Len(reg)} \ {0})
+  IN RSum([k \in 1..Len(ids) |-> TermV(ids[k])])
+DefPriorT(cf) ==
+  LET reg == OnlyMods(cf.pl, ReachFrom(cf.shape, "O"))          \* a layout has one entry per (module object, local name)
+  IN RDiv(RSum([k \in 1..Len(reg) |-> RSum(PriorElemsT(reg[k]))]), R(NumData(TreeBase(cf))))
+DefTermsT(cf) == LET t == DefTerms(TreeBase(cf)) IN [lik |-> t.lik, kl |-> t.kl, prior |-> DefPriorT(cf), added |-> DefAddedT(cf)]
+DefValueT(cf) == LET t == DefTermsT(cf) IN RSub(RAdd(RSub(t.lik, t.kl), t.prior), t.added)
+
+\* ---- transcription of the generators of gpytorch/module.py; a generator with a shared memo = (memo, yielded values) threaded
+\* through the traversal.  torch.nn.Module.named_children(): every child OBJECT of one parent once (under its first attribute name)
+RECURSIVE DedupKids(_, _)
+DedupKids(ks, seen) == IF ks = <<>> THEN <<>> ELSE IF Head(ks)[2] \in seen THEN DedupKids(Tail(ks), seen)
+                       ELSE <<Head(ks)>> \o DedupKids(Tail(ks), seen \cup {Head(ks)[2]})
+NamedChildren(shape, m) == DedupKids(Kids(shape, m), {})
+\* key: what the generator remembers as "already yielded".  _extract_named_added_loss_terms: "object" (the term); _extract_named_priors:
+\* "modname" (module object, local name).  The other keys are NOT the code: they are evaluated to show that the lattice tells them apart
+WKey(key, m, r) == CASE key = "object" -> r.id [] key = "name" -> r.name [] key = "modname" -> <<m, r.name>> [] OTHER -> 0
+RECURSIVE WalkLocal(_, _, _, _), WalkKids(_, _, _, _, _), WalkMod(_, _, _, _, _)
+WalkLocal(key, m, rs, memo) ==                                   \* for name, x in module.<registry>.items(): if x is not None and k not in memo
+  IF rs = <<>> THEN [memo |-> memo, out |-> <<>>]
+  ELSE LET r == Head(rs)
+           take == r.id # 0 /\ (key = "nomemo" \/ WKey(key, m, r) \notin memo)
+           rest == WalkLocal(key, m, Tail(rs), IF take /\ key # "nomemo" THEN memo \cup {WKey(key, m, r)} ELSE memo)
+       IN [memo |-> rest.memo, out |-> (IF take THEN <<r>> ELSE <<>>) \o rest.out]
+WalkMod(key, shape, lay, m, memo) ==
+  LET loc == WalkLocal(key, m, OnlyMods(lay, {m}), memo)
+      kids == WalkKids(key, shape, lay, NamedChildren(shape, m), loc.memo)
+  IN [memo |-> kids.memo, out |-> loc.out \o kids.out]
+WalkKids(key, shape, lay, ks, memo) ==                           \* for mname, module_ in module.named_children(): yield from ...
+  IF ks = <<>> THEN [memo |-> memo, out |-> <<>>]
+  ELSE LET h == WalkMod(key, shape, lay, Head(ks)[2], memo)
+           t == WalkKids(key, shape, lay, Tail(ks), h.memo)
+       IN [memo |-> t.memo, out |-> h.out \o t.out]
+RECURSIVE AddedLoopT(_, _)
+AddedLoopT(acc, rs) == IF rs = <<>> THEN acc ELSE AddedLoopT(RAdd(acc, TermV(Head(rs).id)), Tail(rs))            \* added_loss.add_(term.loss())
+RECURSIVE PriorLoopT(_, _, _)
+PriorLoopT(acc, rs, N) == IF rs = <<>> THEN acc ELSE PriorLoopT(RAdd(acc, RDiv(RSum(PriorElemsT(Head(rs))), N)), Tail(rs), N)
+CodeAddedT(key, cf) == LET rs == WalkMod(key, cf.shape, cf.al, "M", {}).out IN [had |-> rs # <<>>, v |-> AddedLoopT(RZero, rs)]    \* self.model.added_loss_terms()
+CodePriorT(key, cf) == PriorLoopT(RZero, WalkMod(key, cf.shape, cf.pl, "O", {}).out, R(NumData(TreeBase(cf))))                      \* self.named_priors()
+CodeResultT(cf, combine) ==
+  LET b == TreeBase(cf)  lik == CodeLik(b)  kl == CodeKL(b)
+      added == CodeAddedT("object", cf)  prior == CodePriorT("modname", cf)
+  IN IF kl.err THEN [err |-> TRUE, res |-> <<>>]
+     ELSE [err |-> FALSE,
+           res |-> IF combine THEN <<RSub(RAdd(RSub(lik, kl.v), prior), added.v)>>
+                   ELSE IF added.had THEN <<lik, kl.v, prior, added.v>> ELSE <<lik, kl.v, prior>>]
+TupleOKT(t, res) ==
+  /\ Len(res) \in {3, 4}
+  /\ res[1] = t.lik /\ res[2] = t.kl /\ res[3] = t.prior
+  /\ IF Len(res) = 4 THEN res[4] = t.added ELSE t.added = RZero
+\* both values of combine_terms are observations of one cell
+TreeOut(cf) ==
+  LET t == DefTermsT(cf)
+      one == CodeResultT(cf, TRUE)  tup == CodeResultT(cf, FALSE)
+  IN [val |-> DefValueT(cf), terms |-> <<t.lik, t.kl, t.prior, t.added>>, coef |-> DefCoef(TreeBase(cf)),
+      nterms |-> Cardinality({cf.al[k].id : k \in 1..Len(cf.al)} \ {0}), npriors |-> Len(cf.pl),
+      code |-> [combined |-> one, tuple |-> tup],
+      agree |-> ~one.err /\ ~tup.err /\ one.res = <<DefValueT(cf)>> /\ TupleOKT(t, tup.res),
+      \* does a generator with another memo key give the definition's term on this cell?
+      alt |-> [added_name |-> CodeAddedT("name", cf).v = t.added, added_nomemo |-> CodeAddedT("nomemo", cf).v = t.added,
+               prior_name |-> CodePriorT("name", cf) = t.prior, prior_object |-> CodePriorT("object", cf) = t.prior,
+               prior_nomemo |-> CodePriorT("nomemo", cf) = t.prior]]
+TreeOK == Part = "tree" => out.agree
+\* reaching a sub-module along a second path changes nothing
+SharingNeutral == Part = "tree" => (out.val = DefValueT([c EXCEPT !.shape = "plain"]))
+\* without sharing (plain shape, every term object in one slot) a generator without memo gives the definition; a memo of local
+\* names does when, in addition, all local names differ: the alternatives go wrong only on the new dimension
+AltSane == Part = "tree" =>
+  LET plain == c.shape = "plain"
+      oneSlotEach == \A i, j \in 1..Len(c.al) : (i # j /\ c.al[i].id # 0) => c.al[i].id # c.al[j].id
+      namesDiffer(lay) == \A i, j \in 1..Len(lay) : i # j => lay[i].name # lay[j].name
+  IN /\ (plain /\ oneSlotEach => out.alt.added_nomemo)
+     /\ (plain => out.alt.prior_nomemo)
+     /\ (plain /\ oneSlotEach /\ namesDiffer(c.al) => out.alt.added_name)
+     /\ (plain /\ namesDiffer(c.pl) => out.alt.prior_name)
 
 \* ============================ parts "bound" and "ngd": rational instances ======================
 \* instance [Z |-> M x d integers, X |-> n x d integers, y |-> n integers, nv |-> n integer noise variances (constant vector:
@@ -411,16 +572,40 @@ HistOK == (Part = "lattice" /\ c.sec = "hist") =>
             /\ (th.opt => \E k \in 1..Len(hist) : hist[k] = "ngd1" /\ \A j \in (k + 1)..Len(hist) : hist[j] = "ngd")
 GenericSticky == [][(Part = "lattice" /\ c.sec = "hist" /\ th.pos = "generic") => th'.pos = "generic"]_vars
 
-Lattice2Out(cell) == IF cell.sec = "noise" THEN NoiseOut(cell) ELSE IF cell.sec = "hist" THEN HistOut(cell, [pos |-> "fresh", opt |-> FALSE]) ELSE LatticeOut(cell)
+\* ---- "comp" cells: the registration dimension of part "tree" on REAL components -----------------------------------------------
+\* blocks: number of VariationalLatentVariable blocks whose samples are concatenated to the GP input; every block registers its
+\* KL(q(x) || p(x)) under the same local name "x_kl" in its own sub-module.  reuse: the first block object is also attached below a
+\* second parent (one object reachable along two paths).  kern: "single" scaled kernel; "sum" of two scaled kernels, each of which
+\* carries a lengthscale and an outputscale prior under the same local names; "sum_shared": as "sum", and ONE prior object serves both
+\* lengthscales (two registrations, two parameters).  priors: the sites that carry priors (model: every kernel part and the constant
+\* mean; likelihood: the noise).  Definition: minus the KL of every block once, plus (1/N) the log density of every registered prior
+\* on its own parameter once.
+\* resample: the latent inputs are sampled twice before the objective is evaluated; every sample REPLACES the block's term
+\* (update_added_loss_term), so each block still contributes its current KL once.
+CompCells == {cf \in [sec : {"comp"}, strat : {"whitened", "unwhitened"}, blocks : 0..3, reuse : BOOLEAN, resample : BOOLEAN,
+                      kern : {"single", "sum", "sum_shared"}, priors : {"none", "model", "likelihood", "both"}] :
+                /\ (cf.reuse => cf.blocks > 0)
+                /\ (cf.resample => cf.blocks > 0 /\ ~cf.reuse)
+                /\ (cf.kern = "sum_shared" => cf.priors \in {"model", "both"})}
+CompOut(cell) ==
+  [value |-> "definition", nadded |-> cell.blocks,
+   npriors |-> (IF cell.priors \in {"model", "both"} THEN (IF cell.kern = "single" THEN 2 ELSE 4) + 1 ELSE 0) + (IF cell.priors \in {"likelihood", "both"} THEN 1 ELSE 0),
+   nprior_objects |-> (IF cell.priors \in {"model", "both"} THEN (CASE cell.kern = "single" -> 2 [] cell.kern = "sum" -> 4 [] OTHER -> 3) + 1 ELSE 0)
+                      + (IF cell.priors \in {"likelihood", "both"} THEN 1 ELSE 0)]
+
+Lattice2Out(cell) == IF cell.sec = "noise" THEN NoiseOut(cell) ELSE IF cell.sec = "hist" THEN HistOut(cell, [pos |-> "fresh", opt |-> FALSE])
+                     ELSE IF cell.sec = "comp" THEN CompOut(cell) ELSE LatticeOut(cell)
 NoiseOK == (Part = "lattice" /\ c.sec = "noise") => (out.agree /\ out.own)
-LatticeOK == Part = "lattice" => (c.sec \in {"ngd", "noise", "hist"} \/ (out.collapsed = "attained" <=> c.qfam = "post"))
+LatticeOK == Part = "lattice" => (c.sec \in {"ngd", "noise", "hist", "comp"} \/ (out.collapsed = "attained" <=> c.qfam = "post"))
+CompOK == (Part = "lattice" /\ c.sec = "comp") => (out.nadded = c.blocks /\ (c.priors = "none" <=> out.npriors = 0))
 
 \* ============================ machine ==========================================================
 Init ==
   \/ Part = "assembly" /\ c \in Configs /\ out = AssemblyOut(c) /\ th = <<>> /\ hist = <<>>
+  \/ Part = "tree"     /\ c \in TreeCfgs /\ out = TreeOut(c) /\ th = <<>> /\ hist = <<>>
   \/ Part = "bound"    /\ c \in [inst : Instances, q : QFamily] /\ out = BoundOut(c.inst, c.q) /\ th = <<>> /\ hist = <<>>
   \/ Part = "ngd"      /\ c \in [inst : Instances, q0 : NgdInits] /\ th = Init0(c.inst, c.q0) /\ hist = <<>> /\ out = NgdOut(c, th)
-  \/ Part = "lattice"  /\ c \in (BoundCells \cup NgdCells \cup EqualCells \cup NoiseCells \cup HistCells) /\ out = Lattice2Out(c)
+  \/ Part = "lattice"  /\ c \in (BoundCells \cup NgdCells \cup EqualCells \cup NoiseCells \cup HistCells \cup CompCells) /\ out = Lattice2Out(c)
                         /\ th = (IF c.sec = "hist" THEN [pos |-> "fresh", opt |-> FALSE] ELSE <<>>) /\ hist = <<>>
 Next ==
   IF Part = "ngd" THEN NGDStep("ngd1") \/ NGDStep("ngdhalf") \/ HyperStep
